@@ -211,10 +211,14 @@ func updateDatabags(st *state.State, databag registry.JSONDataBag, reg *registry
 	err := st.Get("registry-databags", &databags)
 	if err != nil && !errors.Is(err, state.ErrNoState) {
 		return err
-	} else if errors.Is(err, &state.NoStateError{}) || databags[account] == nil || databags[account][registryName] == nil {
-		databags = map[string]map[string]registry.JSONDataBag{
-			account: {registryName: registry.NewJSONDataBag()},
-		}
+	}
+
+	// keep the databags of the other registries and accounts
+	if databags == nil {
+		databags = make(map[string]map[string]registry.JSONDataBag)
+	}
+	if databags[account] == nil {
+		databags[account] = make(map[string]registry.JSONDataBag)
 	}
 
 	databags[account][registryName] = databag
